@@ -124,6 +124,8 @@ def gen(rng, tier, prop):
         'preserve': rng.choice(['none', 'control', 'control']),
         'use_substitutes': rng.random() < 0.2,
     }
+    # crash/restart: the converter of a session that was suspended and resumed
+    cfg['restored'] = rng.random() < 0.3
     return {'machine': NAME, 'prop': prop, 'cfg': cfg, 'ops': ops}
 
 
@@ -190,22 +192,27 @@ def table_info(name):
     return _TABLES[name]
 
 
-def get_codepage(name, box):
-    key = (name, bool(box))
+def get_codepage(name, box, restored=False):
+    """The converter object; with `restored`, the one a resumed session has: saved and rebuilt from the saved form."""
+    key = (name, bool(box), bool(restored))
     if key not in _CODEPAGES:
         from pcbasic.data import read_codepage
         from pcbasic.basic.codepage import Codepage
-        _CODEPAGES[key] = Codepage(read_codepage(name), bool(box))
+        cp = Codepage(read_codepage(name), bool(box))
+        if restored:
+            import pickle
+            cp = pickle.loads(pickle.dumps(cp, pickle.HIGHEST_PROTOCOL))
+        _CODEPAGES[key] = cp
     return _CODEPAGES[key]
 
 
-def audit(name, box):
-    """Finite table audit; returns (violations, counts). Pure function of (name, box)."""
-    key = (name, bool(box))
+def audit(name, box, restored=False):
+    """Finite table audit; returns (violations, counts). Pure function of (name, box, restored)."""
+    key = (name, bool(box), bool(restored))
     if key in _AUDITS:
         return _AUDITS[key]
     t = table_info(name)
-    cp = get_codepage(name, box)
+    cp = get_codepage(name, box, restored)
     viol = {}
     counts = collections.Counter()
 
@@ -315,7 +322,7 @@ def _body(run):
     w = run.w
     name, box = cfg['codepage'], bool(cfg['box_protect'])
     t = table_info(name)
-    cp = get_codepage(name, box)
+    cp = get_codepage(name, box, cfg.get("restored"))
     preserve = tuple(_bchr(c) for c in CONTROL) if cfg.get('preserve') == 'control' else ()
     pset = set(preserve)
     usub = bool(cfg.get('use_substitutes'))
@@ -335,7 +342,7 @@ def _body(run):
         run.violate(prop, sig, 'codepage %s box_protect=%s preserve=%s: %s' % (name, box, cfg.get('preserve'), detail))
 
     # --- finite audit (cached per process, replayed into the run) -------------------------
-    aviol, acounts = audit(name, box)
+    aviol, acounts = audit(name, box, cfg.get("restored"))
     for sig, detail in aviol:
         run.violate('C41', sig, detail)
     w.log.add('audit', tuple(sorted(acounts.items())), tuple(s for s, _ in aviol))
